@@ -202,6 +202,133 @@ Definition show_response (r : response) : bytes :=
   unwords [show_outcome (out r); tok_opt (acao r); tok_opt (allow_methods r); tok_opt (allow_headers r);
            tok_opt (expose r); tok_optZ (max_age r); tok_list (vary r)].
 
+(* ---- server leg: internal/http/server/cors.go (resolveCORSRulesForRequest, bucketFromPath) over
+   internal/storage/middlewares/corscache (single instance, within the TTL) and the bucket's stored
+   configuration.  Buckets are kept empty by the harness, so DeleteBucket always succeeds. -------- *)
+Definition slash : byte := "/"%byte.
+
+Definition bucket_from_path (p : bytes) : option bytes :=
+  let t := match p with b :: rest => if beqb b slash then rest else p | [] => [] end in
+  match t with
+  | [] => None
+  | _ => let seg := match split_first slash t with None => t | Some (pre, _) => pre end in
+         match trim_space seg with [] => None | b => Some b end
+  end.
+
+(* assoc lists keyed by bucket name *)
+Fixpoint alookup {A} (k : bytes) (l : list (bytes * A)) : option A :=
+  match l with
+  | [] => None
+  | (k', v) :: rest => if bytes_eqb k k' then Some v else alookup k rest
+  end.
+Fixpoint aremove {A} (k : bytes) (l : list (bytes * A)) : list (bytes * A) :=
+  match l with
+  | [] => []
+  | (k', v) :: rest => if bytes_eqb k k' then aremove k rest else (k', v) :: aremove k rest
+  end.
+
+Record sstate := {
+  s_store : list (bytes * option (list rule));   (* existing buckets, each with its CORS configuration *)
+  s_cache : list (bytes * option (list rule))    (* corscache entries: the resolved configuration / "none" *)
+}.
+Definition sinit : sstate := {| s_store := []; s_cache := [] |}.
+
+Inductive sop :=
+| SCreate (b : bytes)
+| SDeleteBucket (b : bytes)
+| SPut (b : bytes) (raw : list rule)
+| SDel (b : bytes)
+| SReq (path : bytes) (q : request).
+
+Inductive sout := OAck | OInvalid | OResp (r : response).
+
+(* the configuration the storage below the cache reports: None = an error that is not cached
+   (no such bucket), Some c = the bucket's configuration (Some rules) or "no configuration" (None) *)
+Definition store_get (s : sstate) (b : bytes) : option (option (list rule)) := alookup b (s_store s).
+
+Definition cached_get (s : sstate) (b : bytes) : sstate * option (option (list rule)) :=
+  match alookup b (s_cache s) with
+  | Some c => (s, Some c)
+  | None => match store_get s b with
+            | Some c => ({| s_store := s_store s; s_cache := (b, c) :: s_cache s |}, Some c)
+            | None => (s, None)
+            end
+  end.
+
+Definition rules_of (c : option (option (list rule))) : list rule :=
+  match c with Some (Some rs) => rs | _ => [] end.
+
+Definition invalidate (s : sstate) (b : bytes) : sstate :=
+  {| s_store := s_store s; s_cache := aremove b (s_cache s) |}.
+
+Definition set_config (s : sstate) (b : bytes) (c : option (list rule)) : sstate :=
+  match alookup b (s_store s) with
+  | Some _ => {| s_store := (b, c) :: aremove b (s_store s); s_cache := s_cache s |}
+  | None => s
+  end.
+
+Definition sstep (s : sstate) (o : sop) : sstate * sout :=
+  match o with
+  | SCreate b =>
+      (match alookup b (s_store s) with
+       | Some _ => s
+       | None => {| s_store := (b, None) :: s_store s; s_cache := s_cache s |}
+       end, OAck)
+  | SDeleteBucket b =>
+      (invalidate {| s_store := aremove b (s_store s); s_cache := s_cache s |} b, OAck)
+  | SPut b raw =>
+      match normalize_rules [] raw with
+      | None => (s, OInvalid)
+      | Some rs => (invalidate (set_config s b (Some rs)) b, OAck)
+      end
+  | SDel b => (invalidate (set_config s b None) b, OAck)
+  | SReq path q =>
+      match trim_space (q_origin q) with
+      | [] => (s, OResp (cors [] q))
+      | _ => match bucket_from_path path with
+             | None => (s, OResp (cors [] q))
+             | Some b => let (s', c) := cached_get s b in (s', OResp (cors (rules_of c) q))
+             end
+      end
+  end.
+
+Fixpoint srun (s : sstate) (ops : list sop) : list sout :=
+  match ops with
+  | [] => []
+  | o :: rest => let (s', r) := sstep s o in r :: srun s' rest
+  end.
+
+Definition show_sout (o : sout) : bytes :=
+  match o with OAck => B"ok" | OInvalid => B"INVALID" | OResp r => show_response r end.
+
+(* op tokens: C<name> X<name> D<name> P<name>:<rules> R<path>:<method>:<origin>:<acrm>:<acrh> *)
+Definition parse_sop (t : bytes) : option sop :=
+  match t with
+  | [] => None
+  | k :: rest =>
+      let f := split_on ":"%byte rest in
+      if beqb k "C"%byte then match f with [b] => option_map SCreate (untok_bytes b) | _ => None end
+      else if beqb k "X"%byte then match f with [b] => option_map SDeleteBucket (untok_bytes b) | _ => None end
+      else if beqb k "D"%byte then match f with [b] => option_map SDel (untok_bytes b) | _ => None end
+      else if beqb k "P"%byte then
+        match f with
+        | [b; rs] => match untok_bytes b, parse_rules rs with
+                     | Some b, Some rs => Some (SPut b rs) | _, _ => None end
+        | _ => None
+        end
+      else if beqb k "R"%byte then
+        match f with
+        | [p; m; o; am; ah] =>
+            match untok_bytes p, untok_bytes m, untok_bytes o, untok_bytes am, untok_bytes ah with
+            | Some p, Some m, Some o, Some am, Some ah =>
+                Some (SReq p {| q_method := m; q_origin := o; q_acrm := am; q_acrh := ah |})
+            | _, _, _, _, _ => None
+            end
+        | _ => None
+        end
+      else None
+  end.
+
 Definition run_line (l : bytes) : bytes :=
   match tokens l with
   | [rs; m; o; am; ah] =>
@@ -212,5 +339,10 @@ Definition run_line (l : bytes) : bytes :=
       | Some rules' =>
           show_response (cors rules' {| q_method := m; q_origin := o; q_acrm := am; q_acrh := ah |})
       end
+  | srv :: ops =>
+      if bytes_eqb srv B"SRV" then
+        do ops <- mapM parse_sop ops;
+        join B" ; " (map show_sout (srun sinit ops))
+      else parse_error
   | _ => parse_error
   end.
